@@ -6,6 +6,14 @@
      deaths-run  --prog F --obs F                                                model verdicts for a given text
    Program text (harness/h_asserts.cpp reads the same):
      case ID / root D f l ... / op ... / oob PATH i0 i1 ... / end                 PATH = B brackets | C call | T tuple
+        PATH may also be ENTRY@RECV (follow-up 4, harness/common/c20_recv.hpp, coq/Model/AssertsRecv.v):
+          ENTRY  B r[i0][i1]..  C r(i0,i1,..)  T r.apply(tuple)  U r[tuple] (rank 1)          -- every level asserts
+                 F r.front()[i1]..  K r.back()[i1]..  I r.begin()[i0-first][i1]..  S ( *(r.begin()+k))[i1]..  N r.end()[i0-last][i1]..
+                                                                                                -- first level unchecked
+                 H r.home()[k0][k1]..  E r.elements()[n]  A r.elements_at(n)                    -- in-range tuples only
+                 Ax r.elements_at(num_elements() + i0)                                          -- stopped by its own assertion
+          RECV   cv_l cv_c cv_r | sv_l sv_c sv_r sv_t | mv_l mv_r | ref_l ref_c ref_r ref_t | arr_l arr_c arr_r arr_t arr_p |
+                 sta_l sta_c sta_r   (class and value category of the object the entry point is invoked on)
      case ID / droot D f l ... / dop ... / sroot D f l ... / sop ... / asg KIND / end
      case ID / cap N / droot D f l ... / dop ... / salias D f l ... / sop ... / asg KIND / end
         salias = the source root is an array_ref over the DESTINATION's buffer (of at least N elements): the two operands
@@ -52,15 +60,184 @@ let gen_oob (v : view) : (string * int list * string) list =
     per_dim @ two @ control
   end
 
+(* ENTRY@RECV -> (entry, receiver) *)
+let split_path (p : string) : string * string option =
+  match String.index_opt p '@' with
+  | Some k -> (String.sub p 0 k, Some (String.sub p (k + 1) (String.length p - k - 1)))
+  | None -> (p, None)
+let entry_of = function
+  | "B" -> Some EBrackets | "C" -> Some ECall | "T" -> Some EApply | "U" -> Some ETupleBr | "F" -> Some EFront | "K" -> Some EBack
+  | "I" -> Some EItIndex | "S" -> Some EItDeref | "N" -> Some EEndIndex | "H" -> Some ECursor | _ -> None
+let recv_of = function
+  | "cv_l" -> RCvL | "cv_c" -> RCvC | "cv_r" -> RCvR | "sv_l" -> RSvL | "sv_c" -> RSvC | "sv_r" -> RSvR | "sv_t" -> RSvT
+  | "mv_l" -> RMvL | "mv_r" -> RMvR | "ref_l" -> RRefL | "ref_c" -> RRefC | "ref_r" -> RRefR | "ref_t" -> RRefT
+  | "arr_l" -> RArrL | "arr_c" -> RArrC | "arr_r" -> RArrR | "arr_t" -> RArrT | "arr_p" -> RArrP
+  | "sta_l" -> RStaL | "sta_c" -> RStaC | "sta_r" -> RStaR | s -> failwith ("bad receiver " ^ s)
+let recvs_view = [ "cv_l"; "cv_c"; "cv_r"; "sv_l"; "sv_c"; "sv_r"; "sv_t"; "mv_l"; "mv_r" ]
+let recvs_own = [ "ref_l"; "ref_c"; "ref_r"; "ref_t"; "arr_l"; "arr_c"; "arr_r"; "arr_t"; "arr_p"; "sta_l"; "sta_c"; "sta_r" ]
+let all_recvs = recvs_view @ recvs_own
+
+(* position of an index tuple in the row-major order of the elements *)
+let flat_of (ex : (int * int) list) (idx : int list) : int =
+  List.fold_left2 (fun n (f, l) k -> n * (l - f) + (k - f)) 0 ex idx
+
+(* The verdict the PROPERTY demands (= the model of the repaired library; for operator[] paths also the model of the pinned
+   one): abort exactly when an index is outside its extension, at that level, whatever the receiver (C20_index_receiver_
+   irrelevant, C20_index_guard_extensions_only); elements_at(n) is silent inside [0, num_elements()) (C20_elements_at_fixed_
+   silent) and stopped beyond (C20_elements_at_fire).  `unclaimed`: an out-of-range first index handed to an iterator / front /
+   back / cursor / elements()[n] (they hold no extension and evaluate no assertion: not judged). *)
 let death_line (id : string) (n : int) (v : view) (path : string) (idx : int list) : string =
   let r = List.length v.lay in
+  let ex = exts_of v in
+  let ok_val idx = Printf.sprintf "res=ok rank=- val=%d" (i (addr_brackets v (zl idx))) in
+  let inside idx = List.length idx = r && List.for_all2 (fun k (f, l) -> f <= k && k < l) idx ex in
+  let of_level idx = function
+    | None -> ok_val idx
+    | Some k -> Printf.sprintf "res=abort rank=%d" (r - int_of_nat k) in
+  let entry, recv = split_path path in
   let verdict =
     if List.length idx <> r then "res=ok rank=-"
-    else match abort_level v (zl idx) with
-      | None -> "res=ok rank=-"
-      | Some k -> Printf.sprintf "res=abort rank=%d" (r - int_of_nat k) in
+    else match entry, recv with
+      | ("B" | "C" | "T"), None -> of_level idx (abort_level v (zl idx))
+      | "E", Some _ -> if inside idx then ok_val idx else "res=unclaimed rank=-"
+      | "A", Some _ ->
+          if not (inside idx) then "res=unclaimed rank=-"
+          else begin
+            let nn = flat_of ex idx in
+            (match g_elements_at Debug true v (z nn) with
+             | Done a when i a = i (addr_brackets v (zl idx)) && il (elements_at_idx true v.lay (z nn)) = idx -> ok_val idx
+             | _ -> failwith "c20_gen: elements_at model inconsistent")
+          end
+      | "Ax", Some _ ->
+          let x0 = List.hd idx in
+          if x0 < 0 then "res=unclaimed rank=-"
+          else (match g_elements_at Debug true v (z (i (l_num_elements v.lay) + x0)) with
+                | Aborted -> Printf.sprintf "res=abort rank=%d" r
+                | Done _ -> failwith "c20_gen: elements_at beyond num_elements not stopped in the model")
+      | e, Some rk ->
+          (match entry_of e with
+           | None -> failwith ("bad entry " ^ e)
+           | Some en ->
+               let rc = recv_of rk in
+               let (f0, l0) = List.hd ex in
+               (* the index the unchecked first level stands for *)
+               let idx = match en with
+                 | EFront -> f0 :: List.tl idx
+                 | EBack -> (l0 - 1) :: List.tl idx
+                 | _ -> idx in
+               let i0 = List.hd idx in
+               let first_ok = f0 <= i0 && i0 < l0 in
+               if (not (first_checked en)) && not first_ok then "res=unclaimed rank=-"
+               else if en = ECursor && not (inside idx) then "res=unclaimed rank=-"
+               else begin
+                 let lvl = abort_level_entry en v (zl idx) in
+                 (* the extracted guarded access agrees with the level (what the theorems say; a cheap run-time cross-check) *)
+                 (match g_entry Debug en rc v (zl idx), lvl with
+                  | Aborted, Some _ | Done _, None -> ()
+                  | _ -> failwith "c20_gen: g_entry and abort_level_entry disagree");
+                 of_level idx lvl
+               end)
+      | _ -> failwith ("bad path " ^ path) in
   Printf.sprintf "D %s %d path=%s idx=%s %s" id n path (ints idx) verdict
 
+(* Which member function holds the assertion that stops an out-of-range access (a MEASUREMENT of the receiver -> overload table
+   of coq/Model/AssertsRecv.v against the function name glibc prints, never a verdict): at a level of rank 1 every overload goes
+   through at_aux_ (:2839); at a level of rank > 1 the const& overload asserts in operator[] itself (:1146), the others in
+   at_aux_ (:1121). *)
+let overload_line (id : string) (n : int) (v : view) (path : string) (idx : int list) : string option =
+  let r = List.length v.lay in
+  match split_path path with
+  | e, Some rk when List.length idx = r && r >= 1 ->
+      (match entry_of e with
+       | Some en when en <> ECursor ->
+           let rc = recv_of rk in
+           let ex = exts_of v in
+           let (f0, l0) = List.hd ex in
+           let idx = match en with EFront -> f0 :: List.tl idx | EBack -> (l0 - 1) :: List.tl idx | _ -> idx in
+           (match abort_level_entry en v (zl idx) with
+            | Some k ->
+                let k = int_of_nat k in
+                let rec ov_at j o rcv = if j = k then o else let rcv' = ov_next o in ignore rcv; ov_at (j + 1) (ov_of rcv') rcv' in
+                let o =
+                  if first_checked en then ov_at 0 (ov_first en rc) rc
+                  else (let r1 = first_result en rc in ov_at 1 (ov_of r1) r1) in
+                let fn = if r - k = 1 then "at_aux_" else (match o with OvConst -> "operator[]" | _ -> "at_aux_") in
+                Some (Printf.sprintf "W %s %d fn=%s" id n fn)
+            | None -> None)
+       | _ -> None)
+  | _ -> None
+
+(* gives a generated tuple an entry point and a receiver: 45% keep the plain paths (named const_subarray through the
+   functions of harness/common/dynview.hpp), the rest draw ENTRY@RECV; owning receivers (copies) only for views without an
+   empty dimension (an owning array with an empty dimension collapses its other extents) and rank <= 4 *)
+let decorate (v : view) ((path, idx, what) : string * int list * string) : (string * int list * string) list =
+  let ex = exts_of v in
+  let r = List.length ex in
+  if r > 4 || chance 45 then [ (path, idx, what) ]
+  else begin
+    let nonempty = List.for_all (fun (f, l) -> l > f) ex in
+    let (f0, l0) = List.hd ex in
+    let i0 = List.hd idx in
+    let in0 = f0 <= i0 && i0 < l0 in
+    let inside = List.for_all2 (fun k (f, l) -> f <= k && k < l) idx ex in
+    let checked = [ (6, "B"); (3, "C"); (2, "T") ] @ (if r = 1 then [ (2, "U") ] else []) in
+    let unchecked = if in0 then [ (1, "F"); (1, "K"); (2, "I"); (1, "S"); (1, "N") ] else [] in
+    let validonly = if inside then [ (2, "H"); (2, "E"); (2, "A") ] else [] in
+    let e = weighted (checked @ unchecked @ validonly) in
+    let idx = match e with "F" -> f0 :: List.tl idx | "K" -> (l0 - 1) :: List.tl idx | _ -> idx in
+    let rk = pick (if nonempty then (if chance 60 then recvs_own else recvs_view) else recvs_view) in
+    [ (e ^ "@" ^ rk, idx, what) ]
+    @ (if inside || r = 0 || not nonempty || not (chance 15) then []
+       else [ ("Ax@" ^ rk, rnd_range 0 3 :: List.tl idx, "elements_at_beyond") ])
+  end
+
+(* ---- the entry x receiver MATRIX: for rank 1..4, zero-based and with index bases, a root without empty dimension; for every
+   receiver kind one case that sends one in-range tuple through every entry point and one out-of-range tuple through every
+   entry point that can be asked to stop it ---- *)
+let matrix_entries_checked r = [ "B"; "C"; "T" ] @ (if r = 1 then [ "U" ] else [])
+let matrix_entries_unchecked = [ "F"; "K"; "I"; "S"; "N" ]
+let matrix_entries_valid = [ "H"; "E"; "A" ]
+let gen_matrix (prefix : string) (prog : Buffer.t) (obs : Buffer.t) (bump : string -> unit) : unit =
+  List.iter (fun r ->
+    List.iter (fun rebased ->
+      let exts = List.init r (fun _ -> let n = rnd_range 1 4 in let f = if rebased then pick [ -3; -2; -1; 1; 2; 3 ] else 0 in (f, f + n)) in
+      let v = root_view (List.map (fun (f, l) -> (z f, z l)) exts) in
+      List.iter (fun rk ->
+        let id = Printf.sprintf "%s%d%s_%s" prefix r (if rebased then "r" else "z") rk in
+        pr prog ("case " ^ id);
+        pr prog (Printf.sprintf "root %d %s" r (join " " (fun (f, l) -> Printf.sprintf "%d %d" f l) exts));
+        pr obs (Views.shape_line id 0 v);
+        let n = ref 0 in
+        let emit e idx what =
+          incr n;
+          let path = e ^ "@" ^ rk in
+          pr prog (Printf.sprintf "oob %s %s" path (join " " string_of_int idx));
+          pr obs (death_line id !n v path idx);
+          (match overload_line id !n v path idx with Some l -> pr obs l | None -> ());
+          bump ("matrix_" ^ what) in
+        let valid () = List.map (fun (f, l) -> rnd_range f (l - 1)) exts in
+        let set k x idx = List.mapi (fun j y -> if j = k then x else y) idx in
+        let wrong k = let (f, l) = List.nth exts k in pick [ f - 1; l; l + rnd_range 1 2; f - rnd_range 2 3 ] in
+        let (f0, l0) = List.hd exts in
+        List.iter (fun e ->
+          emit e (valid ()) "valid";
+          let k = rnd r in
+          emit e (set k (wrong k) (valid ())) "out_of_range") (matrix_entries_checked r);
+        List.iter (fun e ->
+          let fix idx = match e with "F" -> set 0 f0 idx | "K" -> set 0 (l0 - 1) idx | _ -> idx in
+          emit e (fix (valid ())) "valid";
+          if r >= 2 then begin
+            let k = rnd_range 1 (r - 1) in
+            emit e (fix (set k (wrong k) (valid ()))) "out_of_range_after_unchecked_first_level"
+          end) matrix_entries_unchecked;
+        List.iter (fun e -> emit e (valid ()) "valid") matrix_entries_valid;
+        emit "Ax" (set 0 (pick [ 0; rnd_range 1 5 ]) (valid ())) "elements_at_beyond";
+        pr prog "end";
+        pr obs ("E " ^ id);
+        bump (Printf.sprintf "matrix_rank%d_%s" r (if rebased then "rebased" else "zero_based")))
+        all_recvs)
+      [ false; true ])
+    [ 1; 2; 3; 4 ]
 
 (* ---------------- violating view-forming calls ---------------- *)
 (* For the final view of a program: calls OUTSIDE the documented domain of the operation for which the transcribed
@@ -301,7 +478,9 @@ let run_text (text : string) (obs : Buffer.t) : unit =
           let n = ref 0 in
           List.iter
             (function
-              | "oob" :: path :: toks -> incr n; pr obs (death_line id !n v path (List.map int_of_string toks))
+              | "oob" :: path :: toks ->
+                  incr n; pr obs (death_line id !n v path (List.map int_of_string toks));
+                  (match overload_line id !n v path (List.map int_of_string toks) with Some l -> pr obs l | None -> ())
               | _ -> ())
             lines;
           let m = ref 0 in
@@ -346,6 +525,7 @@ let () =
        let c = { Views.maxrank = geti "--maxrank" 4; maxops = geti "--maxops" 4; rebased = has "--rebased"; maxd = 6 } in
        let n_asg = count * geti "--asg-pct" 35 / 100 in
        let alias_pct = geti "--alias-pct" 40 and aref_pct = geti "--aref-pct" 20 in
+       if has "--matrix" then gen_matrix (prefix ^ "m") prog obs bump;
        for k = 1 to count - n_asg do
          let id = Printf.sprintf "%s%d" prefix k in
          let tail id v prog obs =
@@ -355,8 +535,9 @@ let () =
                incr n;
                pr prog (Printf.sprintf "oob %s %s" path (join " " string_of_int idx));
                pr obs (death_line id !n v path idx);
-               "oob_" ^ what ^ "_" ^ path)
-             (gen_oob v)
+               (match overload_line id !n v path idx with Some l -> pr obs l | None -> ());
+               "oob_" ^ what ^ "_" ^ fst (split_path path))
+             (List.concat_map (decorate v) (gen_oob v))
            @ (let m = ref 0 in
               List.map (fun (o, what) -> incr m; pr prog ("xop " ^ Views.op_text o); pr obs (xop_line id !m v o); "xop_" ^ what)
                 (if has "--no-xop" then [] else gen_xop v))
